@@ -74,6 +74,30 @@ VALUES = [1, 2.5, True, 's', None, [], [1], [1, 2.5], ['a', 1], (1, 's'), (), {'
           [[1], [2]], {'k': [1, 2]}, [(1, 's'), (2, 't')], {'a': {'b': 1.5}}, [None], (1, (2, (3,)))]
 
 
+def all_values():
+    """every nested value of depth <= 2 over the atoms: lists/tuples/sets of 1-2 elements, dicts of 1-2 entries"""
+    atoms = [1, 2.5, True, 's', None, (1, 2)]
+    inner = list(atoms)
+    for x, y in itertools.product(atoms, atoms):
+        inner.append([x, y])
+    for x in atoms:
+        inner.append([x])
+        inner.append({'k': x})
+    out = list(VALUES)
+    for x in inner:
+        out.append([x])
+        out.append((x,))
+        out.append({'k': x})
+    for (k1, k2), (v1, v2) in itertools.product(itertools.combinations(atoms, 2), itertools.product(atoms, atoms)):
+        out.append({k1: v1, k2: v2})
+    for k1, k2 in itertools.combinations(atoms, 2):
+        out.append({k1: [1], k2: ['s']})
+        out.append([{k1: 1}, {k2: 2}])
+    for x, y in itertools.product(inner[:12], inner[:12]):
+        out.append([x, y])
+    return out
+
+
 def bounded(arg):
     from pedal.types.normalize import get_pedal_type_from_value, normalize_type
     from pedal.types.new_types import is_subtype, Type
@@ -81,7 +105,8 @@ def bounded(arg):
     evaluations = 0
     distinct = set()
     # value typing: stable and conforming to the normalised Python type
-    for v in VALUES:
+    values = all_values()
+    for v in values:
         evaluations += 1
         distinct.add(('value', repr(v)))
         try:
@@ -127,8 +152,8 @@ def bounded(arg):
                                  'detail': '%s with %s,%s,%s: %s' % (expr, x, y, z, why)})
         if len(samples) < 2:
             samples.append({'program': code, 'cpython': kind})
-    return {'name': 'B-types', 'bound': '%d nested JSON-like values; %d random expression trees of depth 2 over %d operators and '
-            '%d core operand literals' % (len(VALUES), n, len(BINOPS), len(CORE)),
+    return {'name': 'B-types', 'bound': '%d nested JSON-like values (all lists/tuples/dicts of 1-2 elements of depth <= 2 over 6 atoms, mixed key types included); %d random expression trees of depth 2 over %d operators and '
+            '%d core operand literals' % (len(values), n, len(BINOPS), len(CORE)),
             'evaluations': evaluations, 'distinct_nontrivial': len(distinct),
             'rule': 'distinct = value / (operators, operands, shape)', 'samples': samples, 'failures': failures}
 
